@@ -407,7 +407,7 @@ func main() {
 		}
 	}
 	// threaded, wordsize, modes, ROM data
-	for thr := 0; thr <= 3; thr++ {
+	for _, thr := range []int{0, 1, 2, 3, 16, 255, 256, 300, 1000} {
 		for _, ws := range []uint8{0, 20, 31} {
 			for _, mode := range []string{"ha", "vn", "hy"} {
 				m, _ := gen.NewMachine(8, 2, 2, 2, 3, 4, mode, []string{"rset", "add", "j", "i2rw", "r2owa", "ro2rri"})
